@@ -64,45 +64,30 @@ def parseV4 (s : List Char) : Option (List Nat) :=
   let parts := splitOn '.' s
   if parts.length ≠ 4 then none else parseAll 10 255 parts
 
-/-- loop state of `Ipv6Address::from_str` -/
-structure V6St where
-  parts : List Nat := [0, 0, 0, 0, 0, 0, 0, 0]
-  partIndex : Nat := 0
-  compressed : Bool := false
-  compIndex : Nat := 0
+/-- `s.find("::")`: the text before and after the first `::` -/
+def findDouble : List Char → List Char → Option (List Char × List Char)
+  | acc, ':' :: ':' :: rest => some (acc.reverse, rest)
+  | acc, c :: rest => findDouble (c :: acc) rest
+  | _, [] => none
 
-/-- the `for (i, &segment) in segments.iter().enumerate()` loop -/
-def v6Loop : List (List Char) → Nat → V6St → Option V6St
-  | [], _, st => some st
-  | seg :: rest, i, st =>
-    if seg.isEmpty then
-      if st.compressed then none
-      else v6Loop rest (i + 1) { st with compressed := true, compIndex := i }
-    else if st.partIndex ≥ 8 then none
-    else
-      match parseUnsigned 16 65535 seg with
-      | some v => v6Loop rest (i + 1) { st with parts := st.parts.set st.partIndex v, partIndex := st.partIndex + 1 }
-      | none => none
+/-- the local `groups` of `Ipv6Address::from_str`: 16-bit hexadecimal numbers separated by single colons (none for the empty text) -/
+def v6GroupsOf (t : List Char) : Option (List Nat) :=
+  if t.isEmpty then some [] else parseAll 16 65535 (splitOn ':' t)
 
-/-- the shift-and-zero-fill after the loop (the descending in-place copy reads only cells it has not written) -/
-def v6Expand (st : V6St) : List Nat :=
-  let shift := 8 - st.partIndex
-  (List.range 8).map fun i =>
-    if i < st.compIndex then st.parts.getD i 0
-    else if i < st.compIndex + shift then 0
-    else st.parts.getD (i - shift) 0
-
-/-- `Ipv6Address::from_str`: the eight 16-bit groups -/
+/-- `Ipv6Address::from_str`: the eight 16-bit groups.  At most one `::` stands for one or more zero groups, anywhere in
+the text including its start and its end; without it there must be exactly eight groups. -/
 def parseV6 (s : List Char) : Option (List Nat) :=
-  let segs := splitOn ':' s
-  if segs.length > 8 then none
-  else
-    match v6Loop segs 0 {} with
+  match findDouble [] s with
+  | some (head, tail) =>
+    match v6GroupsOf head, v6GroupsOf tail with
+    | some front, some back =>
+      if front.length + back.length > 7 then none
+      else some (front ++ List.replicate (8 - front.length - back.length) 0 ++ back)
+    | _, _ => none
+  | none =>
+    match v6GroupsOf s with
+    | some front => if front.length ≠ 8 then none else some front
     | none => none
-    | some st =>
-      if st.compressed then some (v6Expand st)
-      else if st.partIndex ≠ 8 then none
-      else some st.parts
 
 /-! ## Display -/
 
